@@ -40,6 +40,8 @@ type Obligation struct {
 	Replace    map[string]string `json:"replace"`
 	Threads    bool     `json:"threads"`
 	Preempt    int      `json:"preempt"`
+	SchedRR    bool     `json:"sched_rr"`
+	TimeZero   bool     `json:"time_zero"`
 	MaxSteps   int      `json:"max_steps"`
 	Bound      string   `json:"bound"`
 	MaxViol    int      `json:"max_viol"`
@@ -405,6 +407,8 @@ func runTask(p *Program, t Task, base Config, wid int) (*Report, SolverStats, []
 	cfg.Replace = ob.Replace
 	cfg.Threads = ob.Threads
 	cfg.MaxPreempt = ob.Preempt
+	cfg.SchedRR = ob.SchedRR
+	cfg.TimeZero = ob.TimeZero
 	cfg.HarnessPkg = modPath + "/" + ob.Pkg
 	cfg.NoMerge = ob.NoMerge
 	if ob.Unwind > 0 {
